@@ -6,7 +6,8 @@ from mc import lib, pmodel, refmass, refdata, catalogue
 
 PROPERTY = 'C05'
 RULE = ('full product: every residue string of length 2..L over the 22 unambiguous-mass letters; modified layer: strings of '
-        'length 2..4 over {G,K,M,W} with <=2 numeric/formula modifications on residues/termini (deviation bounded); all 6 '
+        'length 2..4 over {G,K,M,W} with <=2 numeric/formula modifications on residues/termini, written in place or as a '
+        'global rule on N-Term/C-Term/K/G (deviation bounded); pt.fragment and the Fragmenter class; all 6 '
         'terminal series, 9 internal series, immonium; charge 1..4; monoisotopic and average; a state = one peptide (all '
         'ions, charges, modes inside); non-trivial = every state (length >= 2)')
 ASSUMPTIONS = ['ion chemistry as in the statement: b=R+p, y=R+H2O+p, a=b-CO, c=b+NH3, x=y+CO-H2, z=y-NH3, immonium=R-CO+p, '
@@ -45,7 +46,7 @@ def gen(shard, tier):
     else:
         seq = shard['seq']
         n = len(seq)
-        slots = ['n', 'c'] + list(range(n))
+        slots = ['n', 'c'] + list(range(n)) + ['sn', 'sc', 'sK', 'sG']   # s* = the same written as a global rule
         for k in (1, 2):
             for ss in itertools.combinations(slots, k):
                 texts = MOD_TEXTS if k == 1 else MOD_TEXTS[:3]
@@ -61,6 +62,9 @@ def build(case):
             P['nterm'] = [[text, 1]]
         elif slot == 'c':
             P['cterm'] = [[text, 1]]
+        elif slot in ('sn', 'sc', 'sK', 'sG'):
+            tgt = {'sn': 'N-Term', 'sc': 'C-Term', 'sK': 'K', 'sG': 'G'}[slot]
+            P.setdefault('static', []).append({'mods': [[text, 1]], 'targets': [tgt]})
         else:
             res.append([int(slot), [[text, 1]]])
     if res:
@@ -80,62 +84,69 @@ def span_mass(P, a, b, mono):
 
 def check(case, ctx):
     p = lib.pt()
-    P = build(case)
-    s = pmodel.render(P)
+    P0 = build(case)
+    s = pmodel.render(P0)
+    P = pmodel.expand_static(P0)       # own expansion of global rules; every clause below reads the explicit form
     seq = P['seq']
     n = len(seq)
     nterm = refmass.mods_mass(P.get('nterm') or [], True), refmass.mods_mass(P.get('nterm') or [], False)
     cterm = refmass.mods_mass(P.get('cterm') or [], True), refmass.mods_mass(P.get('cterm') or [], False)
     has_term = bool(P.get('nterm') or P.get('cterm'))
     nions = 0
+    ALL = TERMINAL + INTERNAL + ['i']
     for mono in (True, False):
         tol = 1e-5 if mono else 2e-3
         mi = 0 if mono else 1
-        st, frs = lib.call(p.fragment, s, TERMINAL + INTERNAL + ['i'], [1, 2, 3, 4], mono)
-        ctx.evals += 1
-        if st != 'ok':
-            ctx.fail('fragment-raises', 'list', frs, call=['fragment', s, 'all', [1, 2, 3, 4], mono])
-            continue
-        total = span_mass(P, 0, n, mono) + nterm[mi] + cterm[mi] + refdata.comp_mass(refmass.H2O, mono)
-        byk = {}
-        for f in frs:
-            byk[(f.ion_type, f.start, f.end, f.charge)] = f
-        for f in frs:
-            t, a, b, z = f.ion_type, f.start, f.end, f.charge
-            if t in ('a', 'b', 'c'):
-                if a != 0:
-                    ctx.fail('series-span', 'prefix', [a, b], ion=t, text=s)
-                    continue
-                base = span_mass(P, a, b, mono) + nterm[mi] + (cterm[mi] if b == n else 0)
-            elif t in ('x', 'y', 'z'):
-                if b != n:
-                    ctx.fail('series-span', 'suffix', [a, b], ion=t, text=s)
-                    continue
-                base = span_mass(P, a, b, mono) + cterm[mi] + (nterm[mi] if a == 0 else 0)
+        for via in ('fragment', 'Fragmenter'):
+            if via == 'fragment':
+                st, frs = lib.call(p.fragment, s, ALL, [1, 2, 3, 4], mono)
             else:
-                if has_term:
-                    continue
-                base = span_mass(P, a, b, mono)
-            exp = base + refdata.comp_mass(refmass.ION_OFFSET[t], mono) + z * refdata.PROTON
-            nions += 1
-            if not lib.close(f.mass, exp, tol):
-                ctx.fail('ion-mass', exp, f.mass, ion=t, span=[a, b], charge=z, monoisotopic=mono, text=s,
-                         deviation=f.mass - exp)
-            elif not lib.close(f.mz, exp / z, tol):
-                ctx.fail('ion-mz', exp / z, f.mz, ion=t, span=[a, b], charge=z, monoisotopic=mono, text=s)
-        # complementary pairs: b_i + y_(n-i) = M + 2 protons
-        for i in range(1, n):
-            fb = byk.get(('b', 0, i, 1))
-            fy = byk.get(('y', i, n, 1))
-            if fb is None or fy is None:
-                ctx.fail('complementary-missing', 'b and y ion', [fb is not None, fy is not None], cleavage=i, text=s)
+                st, frs = lib.call(lambda: p.Fragmenter(s, mono).fragment(ALL, [1, 2, 3, 4]))
+            ctx.evals += 1
+            if st != 'ok':
+                ctx.fail('fragment-raises', 'list', frs, call=[via, s, 'all', [1, 2, 3, 4], mono])
                 continue
-            if not lib.close(fb.mass + fy.mass, total + 2 * refdata.PROTON, 2 * tol):
-                ctx.fail('complementary-sum', total + 2 * refdata.PROTON, fb.mass + fy.mass, cleavage=i, text=s,
-                         monoisotopic=mono)
+            total = span_mass(P, 0, n, mono) + nterm[mi] + cterm[mi] + refdata.comp_mass(refmass.H2O, mono)
+            byk = {}
+            for f in frs:
+                byk[(f.ion_type, f.start, f.end, f.charge)] = f
+            for f in frs:
+                t, a, b, z = f.ion_type, f.start, f.end, f.charge
+                if t in ('a', 'b', 'c'):
+                    if a != 0:
+                        ctx.fail('series-span', 'prefix', [a, b], ion=t, text=s, via=via)
+                        continue
+                    base = span_mass(P, a, b, mono) + nterm[mi] + (cterm[mi] if b == n else 0)
+                elif t in ('x', 'y', 'z'):
+                    if b != n:
+                        ctx.fail('series-span', 'suffix', [a, b], ion=t, text=s, via=via)
+                        continue
+                    base = span_mass(P, a, b, mono) + cterm[mi] + (nterm[mi] if a == 0 else 0)
+                else:
+                    if has_term:
+                        continue
+                    base = span_mass(P, a, b, mono)
+                exp = base + refdata.comp_mass(refmass.ION_OFFSET[t], mono) + z * refdata.PROTON
+                nions += 1
+                if not lib.close(f.mass, exp, tol):
+                    ctx.fail('ion-mass', exp, f.mass, ion=t, span=[a, b], charge=z, monoisotopic=mono, text=s,
+                             deviation=f.mass - exp, via=via)
+                elif not lib.close(f.mz, exp / z, tol):
+                    ctx.fail('ion-mz', exp / z, f.mz, ion=t, span=[a, b], charge=z, monoisotopic=mono, text=s, via=via)
+            # complementary pairs: b_i + y_(n-i) = M + 2 protons
+            for i in range(1, n):
+                fb = byk.get(('b', 0, i, 1))
+                fy = byk.get(('y', i, n, 1))
+                if fb is None or fy is None:
+                    ctx.fail('complementary-missing', 'b and y ion', [fb is not None, fy is not None], cleavage=i, text=s,
+                             via=via)
+                    continue
+                if not lib.close(fb.mass + fy.mass, total + 2 * refdata.PROTON, 2 * tol):
+                    ctx.fail('complementary-sum', total + 2 * refdata.PROTON, fb.mass + fy.mass, cleavage=i, text=s,
+                             monoisotopic=mono, via=via)
         # the same series through the mass calculator on the fragment's own sequence
         if not has_term and mono:
-            for t in TERMINAL + INTERNAL + ['i']:
+            for t in ALL:
                 for z in (1, 3):
                     exp = span_mass(P, 0, n, mono) + refdata.comp_mass(refmass.ION_OFFSET[t], mono) + z * refdata.PROTON
                     st, got = lib.call(p.mass, s, charge=z, ion_type=t, monoisotopic=mono)
